@@ -1,7 +1,7 @@
 (* C04 / C06: invariants of the subscription LTS (Model/SubBook.v), proved for every trace by induction over
    `fold_left`, and the lemmas the property theorems in Props/C04.v, Props/C06.v are closed with. *)
 From Coq Require Import List NArith ZArith Bool Arith Lia.
-From JV Require Import Model.AcceptSteps Gen.AcceptOrderGen Model.SubBook.
+From JV Require Import Model.AcceptSteps Gen.AcceptOrderGen Model.TableOps Gen.TableOpsGen Model.SubBook.
 Import ListNotations.
 Arguments N.add : simpl never.
 Arguments N.eqb : simpl never.
@@ -1133,7 +1133,7 @@ Lemma step_core_inv : forall s o a, Inv s -> InvO s o ->
   Inv (fst (step_core false s a)) /\ InvO (fst (step_core false s a)) (o ++ snd (step_core false s a)) /\
   Mono s (fst (step_core false s a)).
 Proof.
-  intros s o a I IO. destruct a; cbn [step_core].
+  intros s o a I IO. destruct a; cbn [step_core step_core_g when_performed].
   - (* SubscribeCall *)
     destruct (nth_error (conns s) c) as [cn|] eqn:Hc; [|apply noop_inv; assumption].
     destruct (c_open cn && negb (stopped s)); [|apply noop_inv; assumption].
@@ -1515,7 +1515,7 @@ Proof.
   destruct Hcl as [[req [-> Hobs]] | [-> | [-> Hnp]]].
   - (* successful unsubscribe: the liveness channel of b is closed in that step *)
     apply orb_true_iff. right.
-    unfold step, step_gen in Hb1, Hobs. cbn [step_core] in Hb1, Hobs.
+    unfold step, step_gen in Hb1, Hobs. cbn [step_core step_core_g when_performed] in Hb1, Hobs.
     destruct (nth_error (conns s) (s_conn b)) as [cn|] eqn:Hc; [|rewrite (settle_id s St) in Hobs; destruct Hobs].
     destruct (c_open cn && negb (stopped s)); [|rewrite (settle_id s St) in Hobs; destruct Hobs].
     match type of Hb1 with context [settle ?x] => pose proof (settle_subs x) as [Es _]; destruct (settle x) as [s2 o2] end.
@@ -1523,12 +1523,12 @@ Proof.
     unfold key_of. rewrite (proj2 (key_eqb_eq (s_conn b, s_id b) (s_conn b, s_id b)) eq_refl), Ha. reflexivity.
   - (* the connection ended *)
     apply orb_true_iff. left. apply negb_true_iff. destruct (conn_open (fst (step s (ConnDrop (s_conn b)))) (s_conn b)) eqn:E; [|reflexivity].
-    exfalso. unfold step, step_gen in E. cbn [step_core] in E.
+    exfalso. unfold step, step_gen in E. cbn [step_core step_core_g when_performed] in E.
     destruct (nth_error (conns s) (s_conn b)) as [cn|] eqn:Hc.
     + destruct (c_open cn) eqn:Eo.
       * match type of E with context [settle ?x] =>
           assert (Ix : Inv x /\ InvO x (o ++ [OAck]) /\ Mono s x) end.
-        { pose proof (step_core_inv s o (ConnDrop (s_conn b)) I IO) as P. cbn [step_core] in P. rewrite Hc, Eo in P. exact P. }
+        { pose proof (step_core_inv s o (ConnDrop (s_conn b)) I IO) as P. cbn [step_core step_core_g when_performed] in P. rewrite Hc, Eo in P. exact P. }
         destruct Ix as [Ix [IOx _]]. destruct (settle_inv _ _ Ix IOx) as [_ [_ [[Mx _] _]]].
         match type of E with context [settle ?x] => destruct (settle x) as [s2 o2] end. cbn [fst snd] in *.
         apply Mx in E. unfold conn_open, upd_conn in E. cbn in E. rewrite nth_error_upd_same with (b := cn) in E by assumption. discriminate.
@@ -1538,7 +1538,7 @@ Proof.
     apply orb_true_iff. left. apply negb_true_iff. destruct (conn_open (fst (step s ServerStop)) (s_conn b)) eqn:E; [|reflexivity].
     exfalso. unfold conn_open in E. destruct (nth_error (conns (fst (step s ServerStop))) (s_conn b)) as [cn1|] eqn:Hc1; [|discriminate].
     assert (Hs : stopped (fst (step s ServerStop)) = true /\ subs (fst (step s ServerStop)) = subs s).
-    { unfold step, step_gen. cbn [step_core]. destruct (stopped s) eqn:Est.
+    { unfold step, step_gen. cbn [step_core step_core_g when_performed]. destruct (stopped s) eqn:Est.
       - rewrite (settle_id s St). cbn. auto.
       - destruct (settle_subs (set_stopped s)) as [Es [_ Est2]]. destruct (settle (set_stopped s)) as [s2 o2]. cbn [fst snd] in *. auto. }
     destruct Hs as [Hs1 Hs2]. pose proof (St1 Hs1 _ _ Hc1 E) as Hp. unfold has_pending in Hp, Hnp. rewrite Hs2 in Hp. congruence.
@@ -1549,10 +1549,10 @@ Lemma closed_fails : forall s h b k x, inv_stop s -> nth_error (subs s) h = Some
   (~ In k (map fst (s_inflight b)) -> step s (SendCheck h k x) = (s, [OSendResult h k x false])).
 Proof.
   intros s h b k x St Hb Hc Hk. apply memN_In in Hk. split.
-  - unfold step, step_gen. cbn [step_core]. rewrite Hb, Hk, Hc, (settle_id s St). reflexivity.
+  - unfold step, step_gen. cbn [step_core step_core_g when_performed]. rewrite Hb, Hk, Hc, (settle_id s St). reflexivity.
   - intro Hn. assert (E : memN k (map fst (s_inflight b)) = false).
     { destruct (memN k (map fst (s_inflight b))) eqn:E; [apply memN_In in E; contradiction | reflexivity]. }
-    unfold step, step_gen. cbn [step_core]. rewrite Hb, Hk, E. cbn [andb negb]. rewrite Hc, (settle_id s St). reflexivity.
+    unfold step, step_gen. cbn [step_core step_core_g when_performed]. rewrite Hb, Hk, E. cbn [andb negb]. rewrite Hc, (settle_id s St). reflexivity.
 Qed.
 
 Lemma send_after_close_fails : forall caps base meth tr1 a tr2 h b,
@@ -1628,11 +1628,11 @@ Proof.
   intros caps base meth tr c cn req t s Hc Ho Hst. destruct (reach_inv caps base meth tr) as [I _]. fold s in I.
   exists (mem_key (c, t) (table s)).
   assert (E : step s (UnsubscribeCall c req t) = (fst (step_core false s (UnsubscribeCall c req t)), [OUnsubAnswer c req t (mem_key (c, t) (table s))])).
-  { unfold step, step_gen. cbn [step_core]. rewrite Hc, Ho, Hst. cbn [andb negb].
+  { unfold step, step_gen. cbn [step_core step_core_g when_performed]. rewrite Hc, Ho, Hst. cbn [andb negb].
     unfold settle. cbn [stopped upd_conn set_conns set_subs set_table]. rewrite Hst. reflexivity. }
   rewrite E. cbn [fst snd]. split; [reflexivity|]. split.
   - rewrite <- (table_active s c t I). split; intro H; [apply mem_key_In | apply mem_key_In in H]; assumption.
-  - cbn [step_core]. rewrite Hc, Ho, Hst. cbn [andb negb fst]. exists (c_enq (FUnsub req (mem_key (c, t) (table s))) cn).
+  - cbn [step_core step_core_g when_performed]. rewrite Hc, Ho, Hst. cbn [andb negb fst]. exists (c_enq (FUnsub req (mem_key (c, t) (table s))) cn).
     split; [unfold upd_conn; cbn; apply nth_error_upd_same; assumption|]. unfold sent, c_enq. cbn. rewrite app_assoc. reflexivity.
 Qed.
 
@@ -1654,7 +1654,7 @@ Lemma subscribe_decision : forall caps base meth tr c cn req,
   (count_live s c < c_cap cn -> snd (step s (SubscribeCall c req)) = [OHandler (length (subs s)) c req]).
 Proof.
   intros caps base meth tr c cn req s Hc Ho Hst. destruct (cap_respected caps base meth tr c cn Hc) as [E _]. fold s in E.
-  unfold step, step_gen. cbn [step_core]. rewrite Hc, Ho, Hst. cbn [andb negb]. split; intro H.
+  unfold step, step_gen. cbn [step_core step_core_g when_performed]. rewrite Hc, Ho, Hst. cbn [andb negb]. split; intro H.
   - assert (Hp : c_permits cn = 0) by lia. rewrite Hp. unfold settle, push. cbn [stopped upd_conn set_conns]. rewrite Hst. cbn [fst snd].
     split; [reflexivity|]. split; [reflexivity|]. exists (c_push (FErr req ETooMany) cn).
     split; [apply nth_error_upd_same; assumption|]. unfold c_push. rewrite Ho. unfold sent, c_enq. cbn. rewrite app_assoc. reflexivity.
@@ -1678,7 +1678,7 @@ Proof.
       assert (E : run_step step (s, o) (SubscribeCall c req) =
                   (upd_conn (set_subs s (subs s ++ [mkSub c (id_base s + N.of_nat (length (subs s)))%N req (notif_meth s) SPending [] [] true false false None])) c (c_set_permits p),
                    o ++ [OHandler (length (subs s)) c req])).
-      { unfold run_step, step, step_gen. cbn [step_core fst snd]. rewrite Hc, Ho, Hst, Hp. cbn [andb negb].
+      { unfold run_step, step, step_gen. cbn [step_core step_core_g when_performed fst snd]. rewrite Hc, Ho, Hst, Hp. cbn [andb negb].
         unfold settle. cbn [stopped upd_conn set_conns set_subs]. rewrite Hst. reflexivity. }
       rewrite E. erewrite IH with (cn := c_set_permits p cn).
       + cbn [subs upd_conn set_conns set_subs]. rewrite app_length. cbn [length]. rewrite <- app_assoc. cbn [app].
@@ -1715,7 +1715,7 @@ Proof.
   { destruct (s_unsubscribed b) eqn:E; [|reflexivity]. destruct (io_unsub s o IO _ _ Hb Ha E Hs) as [req Hr]. exfalso. exact (Hn req Hr). }
   split.
   - apply (inv_table s I). exists h, b. split; [assumption|]. unfold akey. rewrite Ha, Hu. reflexivity.
-  - intros k Hk. apply memN_In in Hk. unfold step, step_gen. cbn [step_core]. rewrite Hb, Hk, (settle_id s St).
+  - intros k Hk. apply memN_In in Hk. unfold step, step_gen. cbn [step_core step_core_g when_performed]. rewrite Hb, Hk, (settle_id s St).
     unfold sink_closed. rewrite (conn_open_eq _ _ _ Hc), Ho, Hu. reflexivity.
 Qed.
 
@@ -1768,7 +1768,7 @@ Lemma accept1_core : forall old s h b cn, nth_error (subs s) h = Some b -> nth_e
               (fun x => rel_conn (s_has_permit b) (c_enq (FSubOk (s_req b) (s_id b)) x)) (table s), [OAccept h false])
     else (apply s h b (sb_fail SDone (s_has_permit b)) (rel_conn (s_has_permit b)) (table s), [OAccept h false]).
 Proof.
-  intros old s h b cn Hb Hcn Hp. cbn [step_core]. rewrite Hb, Hp, accept_phase1_now. cbn [accept_run].
+  intros old s h b cn Hb Hcn Hp. cbn [step_core step_core_g when_performed]. rewrite Hb, Hp, accept_phase1_now. cbn [accept_run].
   rewrite (conn_open_eq _ _ _ Hcn). destruct (c_open cn); [destruct (call_waiting (s_state b))|]; reflexivity.
 Qed.
 
@@ -1797,7 +1797,7 @@ Proof.
   { exists b. split; [assumption|]. split; [repeat split | assumption]. }
   assert (K : forall f, keeps f -> forall b0, s_state b0 = SDone -> same_static b0 (f b0) /\ s_state (f b0) = SDone).
   { intros f Hf b0 E. destruct (Hf b0) as [A B]. split; [assumption | congruence]. }
-  destruct a; cbn [step_core].
+  destruct a; cbn [step_core step_core_g when_performed].
   - (* SubscribeCall *)
     destruct (nth_error (conns s) c) as [cn|]; [|exact Same]. destruct (c_open cn && negb (stopped s)); [|exact Same].
     destruct (c_permits cn); cbn [fst]; [exact Same|].
@@ -2039,7 +2039,7 @@ Proof.
   set (bnew := mkSub c (id_base s0 + N.of_nat h)%N req (notif_meth s0) SPending [] [] true false false None).
   set (s1 := upd_conn (set_subs s0 (subs s0 ++ [bnew])) c (c_set_permits p)).
   assert (E1 : step s0 (SubscribeCall c req) = (s1, [OHandler h c req])).
-  { unfold step, step_gen. cbn [step_core]. rewrite Hc, Ho, Hst, Hp. cbn [andb negb].
+  { unfold step, step_gen. cbn [step_core step_core_g when_performed]. rewrite Hc, Ho, Hst, Hp. cbn [andb negb].
     unfold settle. cbn [stopped upd_conn set_conns set_subs]. rewrite Hst. reflexivity. }
   assert (Hst1 : stopped s1 = false) by exact Hst.
   assert (Hb1 : nth_error (subs s1) h = Some bnew).
@@ -2058,7 +2058,7 @@ Proof.
     - (* the call is abandoned, the pending sink lives on *)
       assert (E2 : step s1 (AbandonCall h true) =
                    (apply s1 h bnew (fun x => sb_returned None (sb_state SAbandoned x)) (c_push (FErr (s_req bnew) EAbandoned)) (table s1), [OAck])).
-      { unfold step, step_gen. cbn [step_core]. rewrite Hb1. cbn [s_state bnew].
+      { unfold step, step_gen. cbn [step_core step_core_g when_performed]. rewrite Hb1. cbn [s_state bnew].
         unfold settle. cbn [stopped apply]. rewrite Hst1. reflexivity. }
       rewrite E2. cbn [fst].
       exists (sb_returned None (sb_state SAbandoned bnew)). split; [|split; [reflexivity | split; [|left; reflexivity]]].
@@ -2070,7 +2070,7 @@ Proof.
         lia.
     - (* the client drops the connection *)
       assert (E2 : step s1 (ConnDrop c) = (upd_conn s1 c c_close, [OAck])).
-      { unfold step, step_gen. cbn [step_core]. rewrite Hc1. cbn [c_open c_set_permits]. rewrite Ho.
+      { unfold step, step_gen. cbn [step_core step_core_g when_performed]. rewrite Hc1. cbn [c_open c_set_permits]. rewrite Ho.
         unfold settle. cbn [stopped upd_conn set_conns]. rewrite Hst1. reflexivity. }
       rewrite E2. cbn [fst].
       exists bnew. split; [exact Hb1|]. split; [reflexivity|]. split; [exact Hlive1|]. right. split; [reflexivity|].
